@@ -93,6 +93,7 @@ struct SyntaxTree::SyntaxTreeImpl
     LexedTokens tokens_;
     std::vector<LineDirective> lineDirectives_;
     std::vector<unsigned int> startOfLineOffsets_;
+    std::vector<unsigned int> startOfLineByteOffsets_;
     SyntaxTree::ExpansionsTable expansions_;
 
     bool parseExitedEarly_;
@@ -343,9 +344,10 @@ const ImaginaryFloatingConstant* SyntaxTree::findOrInsertImaginaryFloatingConsta
 }
 
 
-void SyntaxTree::relayLineStart(unsigned int offset)
+void SyntaxTree::relayLineStart(unsigned int offset, unsigned int byteOffset)
 {
     P->startOfLineOffsets_.push_back(offset);
+    P->startOfLineByteOffsets_.push_back(byteOffset);
 }
 
 void SyntaxTree::relayExpansion(unsigned int offset, std::pair<unsigned int, unsigned int> p)
@@ -431,7 +433,9 @@ void SyntaxTree::newDiagnostic(DiagnosticDescriptor descriptor,
     if (it != P->startOfLineOffsets_.begin()) {
         --it;
 
-        auto lineBegIt = P->text_.rawText().begin() + *it;
+        // The raw text is indexed by bytes, not by characters.
+        auto lineIdx = std::distance(P->startOfLineOffsets_.begin(), it);
+        auto lineBegIt = P->text_.rawText().begin() + P->startOfLineByteOffsets_[lineIdx];
         auto lineCurIt = lineBegIt;
         while (lineCurIt != P->text_.rawText().end()) {
             if (*lineCurIt == '\n')
